@@ -24,6 +24,7 @@ import (
 	"sort"
 	"strconv"
 	"strings"
+	"time"
 
 	"github.com/risor-io/risor"
 	"github.com/risor-io/risor/builtins"
@@ -34,6 +35,103 @@ import (
 type parser struct {
 	toks []string
 	pos  int
+	errs map[string]error // Go errors of this case, by identity: the values of one case share them
+	objs map[string]object.Object
+}
+
+// opaque builds the value of a token O=<kind>/<id>/<variant>: a value of one of the kinds that have no literal spelling
+// (time, builtin, function, module, iterators, buffer, channel, float_slice, partial).  Within one case the same token is the
+// SAME object; another id with the same variant is another object with the same content.
+func (p *parser) opaque(spec string) (object.Object, error) {
+	if o, ok := p.objs[spec]; ok {
+		return o, nil
+	}
+	parts := strings.Split(spec, "/")
+	if len(parts) != 3 {
+		return nil, fmt.Errorf("bad opaque value %q", spec)
+	}
+	n, err := strconv.Atoi(parts[2])
+	if err != nil {
+		return nil, err
+	}
+	noop := func(ctx context.Context, args ...object.Object) object.Object { return object.Nil }
+	var o object.Object
+	switch parts[0] {
+	case "time":
+		// variants 0, 1: two instants in UTC; 2, 3: the same two instants in another zone
+		t := time.Unix(1700000000+int64(n%2)*3600, 0).UTC()
+		if n >= 2 {
+			t = t.In(time.FixedZone("plus1", 3600))
+		}
+		o = object.NewTime(t)
+	case "builtin":
+		o = object.NewBuiltin("b"+parts[2], noop)
+	case "function":
+		v, e := evalScript("func(x) { return x + "+parts[2]+" }", map[string]any{})
+		if e != "" {
+			return nil, errors.New(e)
+		}
+		o = v
+	case "module":
+		o = object.NewBuiltinsModule("m"+parts[2], map[string]object.Object{"f": object.NewBuiltin("f", noop)})
+	case "listiter":
+		o = object.NewListIter(object.NewList([]object.Object{object.NewInt(int64(n))}))
+	case "intiter":
+		o = object.NewIntIter(object.NewInt(int64(n)))
+	case "buffer":
+		o = object.NewBufferFromBytes([]byte(strings.Repeat("x", n)))
+	case "chan":
+		o = object.NewChan(n)
+	case "floatslice":
+		o = object.NewFloatSlice([]float64{float64(n)})
+	case "partial":
+		o = object.NewPartial(object.NewBuiltin("pb", noop), []object.Object{object.NewInt(int64(n))})
+	default:
+		return nil, fmt.Errorf("unknown opaque kind %q", parts[0])
+	}
+	if p.objs == nil {
+		p.objs = map[string]object.Object{}
+	}
+	p.objs[spec] = o
+	return o, nil
+}
+
+// chainError builds the Go error of a token E<r>=<id>/<hex base message>[/<hex prefix>]*: a base error created with
+// errors.New, wrapped once per prefix with fmt.Errorf("<prefix>: %w", inner).  Within one case, the same id and base message
+// give the SAME base error object (as a sentinel does), and the same prefixes over it the same wrapper objects; another id
+// gives other objects that may carry the same message.
+func (p *parser) chainError(spec string) (error, error) {
+	parts := strings.Split(spec, "/")
+	if len(parts) < 2 {
+		return nil, fmt.Errorf("bad error chain %q", spec)
+	}
+	if p.errs == nil {
+		p.errs = map[string]error{}
+	}
+	key := parts[0] + "/" + parts[1]
+	cur, ok := p.errs[key]
+	if !ok {
+		b, err := unhex(parts[1])
+		if err != nil {
+			return nil, err
+		}
+		cur = errors.New(string(b))
+		p.errs[key] = cur
+	}
+	for _, px := range parts[2:] {
+		key += "/" + px
+		w, ok := p.errs[key]
+		if !ok {
+			b, err := unhex(px)
+			if err != nil {
+				return nil, err
+			}
+			w = fmt.Errorf("%s: %w", string(b), cur)
+			p.errs[key] = w
+		}
+		cur = w
+	}
+	return cur, nil
 }
 
 func (p *parser) next() (string, error) {
@@ -50,6 +148,8 @@ func unhex(s string) ([]byte, error) { return hex.DecodeString(s) }
 // parseValue reads one value:
 //
 //	n | t | f | i<dec> | d<16 hex digits of the IEEE bits> | y<dec> | s=<hex> | b=<hex> | e0=<hex> | e1=<hex>
+//	E<r>=<id>/<hex base>[/<hex prefix>]* (an error with a chain of wrapped errors, see chainError)
+//	O=<kind>/<id>/<variant> (a time, builtin, function, module, iterator, buffer, channel, float_slice, partial; see opaque)
 //	L<k> v1..vk | M<k> (k=<hex> v)* | S<k> v1..vk
 func (p *parser) parseValue() (object.Object, error) {
 	t, err := p.next()
@@ -99,6 +199,14 @@ func (p *parser) parseValue() (object.Object, error) {
 			return nil, err
 		}
 		return object.NewError(errors.New(string(b))).WithRaised(t[1] == '1'), nil
+	case strings.HasPrefix(t, "O="):
+		return p.opaque(t[2:])
+	case strings.HasPrefix(t, "E0=") || strings.HasPrefix(t, "E1="):
+		e, err := p.chainError(t[3:])
+		if err != nil {
+			return nil, err
+		}
+		return object.NewError(e).WithRaised(t[1] == '1'), nil
 	case t[0] == 'L' || t[0] == 'S':
 		k, err := strconv.Atoi(t[1:])
 		if err != nil {
